@@ -110,10 +110,13 @@ def run_config(spec, start, script, cfg, queries=None, clock=None, keep_chart=Fa
     def do_queries(k):
       for q in (queries or {}).get(k, ()):
         try:
+          # the argument 'top' is the chart's own outermost pseudo-state: chart.top (a bound method - every access builds a new,
+          # equal but not identical object)
+          arg = chart.top if q[1] == 'top' else run.fns[q[1]]
           if q[0] == 'is_in':
-            r = chart.is_in(run.fns[q[1]])
+            r = chart.is_in(arg)
           else:
-            r = chart.child_state(run.fns[q[1]])
+            r = chart.child_state(arg)
             r = getattr(r, '__name__', r)
           res.queries.append((k, q, 'ok', r))
         except cg.Budget:
